@@ -221,6 +221,11 @@ func (c *Core) turn(o string, val int64, out *vgirpc.OutputCollector) error {
 		return Fail("error")
 	case "panic":
 		panic("scripted turn panic")
+	case "emitpanic":
+		if err := emit(); err != nil {
+			return err
+		}
+		panic("scripted panic after emit")
 	case "noemit":
 		return nil
 	case "emit2":
